@@ -1,20 +1,23 @@
-"""C14 PCA / truncated SVD: the transforms are row-wise affine maps (one clause only)."""
+"""C14 PCA / truncated SVD: row-wise affine transforms; centred covariance accumulation; builder chain."""
 from sa import rowwise
 from sa.mir import AnchorError
 from sa.prov import Resolver, render, subterms
 
 LEVEL = "other"
 EXPLANATION = (
-    "ONE clause of the statement is decided: 'both transforms are the row-wise affine maps x -> (x - mu)*P and x -> x*C, so "
+    "Structural clauses only. (1) 'both transforms are the row-wise affine maps x -> (x - mu)*P and x -> x*C, so "
     "transforming a stack of rows equals stacking the transforms'. Rule (non-interference across rows, on MIR provenance "
     "terms): in PCA::transform and SVD::transform the input matrix reaches the result only through row-preserving "
     "operations - as the left factor of matmul with a model field, element reads/writes, element-wise in-place ops with "
     "operands that do not depend on the input - and never through a reduction over rows (mean, column_mean, var, std, sum, "
     "norm, cov, ...); every other operand comes from the fitted model. A transform that centred or scaled with statistics "
-    "of the batch being transformed would break the clause and the rule. Orthonormality, decorrelation, variance ordering "
+    "of the batch being transformed would break the clause and the rule. (2) On the covariance path of PCA::fit every accumulated product has centred "
+    "factors (read from the copy the column means were subtracted from, or explicit differences), never raw elements of the "
+    "data argument: 'large means' are in the quantifier and the one-pass E[xy]-mu mu form cancels. (3) Parameter builders "
+    "change only their own field. Orthonormality, decorrelation, variance ordering "
     "and optimality of the captured variance are numerical and NOT decided."
 )
-TECHNIQUE = "static analysis of rustc MIR: row-wise non-interference (value provenance of the transform's result)"
+TECHNIQUE = "static analysis of rustc MIR: row-wise non-interference (value provenance of the transform's result), centred-accumulation rule, builder field-preservation rule"
 
 FNS = [("PCA", r"^decomposition::pca::PCA::<T, M>::transform$", ("projection",)),
        ("SVD", r"^decomposition::svd::SVD::<T, M>::transform$", ("components",))]
@@ -55,3 +58,67 @@ def run(ck, prog):
     from sa.builders import check_builders
     check_builders(ck, prog, r"^decomposition::(pca::PCA|svd::SVD)Parameters$")
     ck.floor("E2-builder", 3)
+
+
+# ------------------------------------------------------------------ covariance path: centred accumulation
+CLAIM_CENTRED = (
+    "Covariance path of PCA::fit (n <= p, or the correlation option): every product accumulated into the covariance matrix has "
+    "centred factors - elements of the copy from which the column means were subtracted, or explicit differences element - mean - "
+    "never raw elements of the data argument. With raw factors the matrix is either uncentred or obtained as E[x_i x_j] - mu_i mu_j, "
+    "which cancels catastrophically for the 'large means' of the quantifier. Decided: which matrix the factors are read from; "
+    "not the numerical quality of the result.")
+
+_run_pre_centred = run
+
+
+def centred_cov_pca(ck, prog):
+    from sa.prov import alts
+    rule, inst = "E2f-centred", "PCA::fit accumulates products of centred elements"
+    try:
+        b = prog.one(r"^decomposition::pca::PCA::<T, M>::fit$")
+    except AnchorError as e:
+        ck.violation(rule, inst, "PCA::fit", "", expected="anchor exists", found=f"anchor vanished: {e}")
+        return
+    n = 0
+    for bd in [b] + prog.closures_of.get(b.path, []):
+        rs = Resolver(bd)
+        for bb, t in bd.calls():
+            f = t.get("f")
+            if not f:
+                continue
+            if f["path"].endswith("BaseMatrix::add_element_mut") and len(t["args"]) == 4:
+                v = rs.operand(t["args"][3])
+            elif f["path"] == "std::ops::AddAssign::add_assign":
+                v = rs.operand(t["args"][1])
+            else:
+                continue
+            if not (v[0] == "call" and v[1] == "std::ops::Mul::mul"):
+                continue
+            facs = [F for F in v[2] if F[0] == "call" and F[1].endswith(("BaseMatrix::get", "Sub::sub"))]
+            if len(facs) != 2:
+                continue
+            n += 1
+            raw = []
+            for F in facs:
+                if F[1].endswith("Sub::sub"):
+                    continue
+                base = F[2][0]
+                al = alts(base)
+                centred = any(a[0] == "call" and a[1].startswith("mut:") for a in al) or \
+                    any(a[0] == "call" and not a[1].startswith("mut:") for a in al)
+                if not centred and all(a[0] in ("arg", "field", "upvar") for a in al):
+                    raw.append(render(F)[:60])
+            if raw:
+                ck.violation(rule, inst, bd.path, bd.where(bb), ordinal=n,
+                             expected="both factors are read from the centred copy (or are differences element - mean)",
+                             found=f"raw data element(s) enter the covariance accumulation: {raw}")
+            else:
+                ck.ok(rule, inst, bd.path, bd.where(bb), render(v)[:120])
+    if n == 0:
+        ck.note(f"{inst}: no accumulated element product in PCA::fit (covariance obtained through a matrix operation); rule has no instance") \
+            if hasattr(ck, "note") else None
+
+
+def run(ck, prog):
+    _run_pre_centred(ck, prog)
+    centred_cov_pca(ck, prog)
